@@ -5,6 +5,7 @@ import (
 	"math"
 	"math/big"
 	"reflect"
+	"regexp"
 	"sort"
 	"strconv"
 	"strings"
@@ -181,6 +182,10 @@ func violates(fv reflect.Value, t vtag) string {
 			if v.Len() == 0 {
 				return "empty array"
 			}
+		case reflect.Struct:
+			if p, ok := regexpPattern(v); ok && p == "" {
+				return "regular expression with empty pattern"
+			}
 		}
 		return ""
 	case "nonzero":
@@ -206,19 +211,27 @@ func violates(fv reflect.Value, t vtag) string {
 			if v.Len() == 0 {
 				return "empty array"
 			}
+		case reflect.Struct:
+			if p, ok := regexpPattern(v); ok && p == "" {
+				return "regular expression with empty pattern"
+			}
 		}
 		return ""
 	case "positive":
 		if isNil {
 			return ""
 		}
-		if n, ok := number(v); ok && n < 0 {
-			return fmt.Sprintf("%v < 0", n)
+		// "numeric value >= 0": NaN is not
+		if n, ok := number(v); ok && !(n >= 0) {
+			return fmt.Sprintf("%v is not >= 0", n)
 		}
 		return ""
 	case "min", "max":
 		if isNil {
 			return ""
+		}
+		if f, isNum := number(v); isNum && math.IsNaN(f) {
+			return "NaN is neither >= nor <= " + t.param
 		}
 		n, ok := exact(v)
 		if !ok {
@@ -245,6 +258,19 @@ func violates(fv reflect.Value, t vtag) string {
 		return ""
 	}
 	return ""
+}
+
+// regexpPattern returns the pattern of a regexp.Regexp value.
+func regexpPattern(v reflect.Value) (string, bool) {
+	if v.Type() != tRegexp {
+		return "", false
+	}
+	if v.CanAddr() {
+		return v.Addr().Interface().(*regexp.Regexp).String(), true
+	}
+	p := reflect.New(tRegexp)
+	p.Elem().Set(v)
+	return p.Interface().(*regexp.Regexp).String(), true
 }
 
 func join(path, name string) string {
